@@ -107,7 +107,12 @@ def mutate_reply(rng, code, body, nfds):
     """one-field mutation of a correct reply"""
     flags, size = 5, None
     b = bytearray(bytes.fromhex(body))
-    m = rng.choice(["code", "reply", "flagbit", "version", "size", "body", "fds", "trunc", "extend", "random"])
+    m = rng.choice(["code", "reply", "flagbit", "version", "size", "body", "fds", "trunc", "extend", "random", "cut", "cut"])
+    if m == "cut":
+        # the stream ends inside the (otherwise correct) reply: a prefix of header+body, the size field untouched
+        full = reply(code, body, nfds).split("/")[0]
+        k = rng.randrange(0, len(full) // 2)
+        return (full[:2 * k] or "-") + f"/{nfds if k > 0 else 0}", m
     if m == "code":
         code = rng.choice([c for c in [1, 2, 11, 15, 17, 24, 31, 36, 41, 43, 44, 0, 45, 2**32 - 1] if c != code])
     elif m == "reply":
@@ -214,6 +219,28 @@ class FeFamily(Family):
             out.append(f"fe mq={mq:x} mode=peer | " + " | ".join(ops))
         return out
 
+    def gen_cut(self, rng):
+        """C08, receiver side of the frontend: every reply-bearing operation answered with the correct reply cut at EVERY byte
+        offset (the size field says the full length), then the peer closes: an error, never success, never a wait"""
+        out = []
+        ops = {"get_features": (1, vu.u64(0x140000000), 0), "get_protocol_features": (15, vu.u64(0x3fffff), 0),
+               "get_queue_num": (17, vu.u64(2), 0), "get_vring_base 0": (11, C.le(0, 4) + C.le(7, 4), 0),
+               "get_config 0 8 0 8": (24, vu.config(0, 8, 0, bytes(range(1, 9))), 0),
+               "get_config 10 20 0 20": (24, vu.config(0x10, 0x20, 0, bytes(range(0x20))), 0),
+               "get_inflight_fd 1000 0 1 100": (31, vu.inflight(0x1000, 0, 1, 0x100), 1), "get_max_mem_slots": (36, vu.u64(8), 0),
+               "check_device_state": (43, vu.u64(0), 0), "set_device_state_fd 0 0": (42, vu.u64(0x100), 0),
+               "set_owner": (3, vu.u64(0), 0), "set_vring_num 0 100": (8, vu.u64(0), 0)}
+        pre = [f"get_features r={reply(1, vu.u64(vu.F_PROTOCOL_FEATURES))}", f"set_features {vu.F_PROTOCOL_FEATURES:x} r=-",
+               f"get_protocol_features r={reply(15, vu.u64(ALLP))}", f"set_protocol_features {ALLP:x} r=-", "set_hdr_flags 8"]
+        for text, (code, body, nf) in ops.items():
+            full = reply(code, body, nf).split("/")[0]
+            n = len(full) // 2
+            cuts = range(0, n) if n <= 48 else list(range(0, 40)) + [n // 2, n - 9, n - 2, n - 1]
+            for k in cuts:
+                r = (full[:2 * k] + f"/{nf if k > 0 else 0}") if k > 0 else "close"
+                out.append("fe mq=2 mode=peer | " + " | ".join(pre + [f"{text} r={r}" + (" then-close" if k > 0 else "")]))
+        return out
+
     def gen_gate(self, rng):
         """frontend gates, systematically: every gated API call with exactly its bit missing / only its bit / none / all
         acknowledged, VHOST_USER_F_PROTOCOL_FEATURES offered or not and acknowledged or not (peer mode: a refused call must
@@ -254,6 +281,8 @@ class FeFamily(Family):
         L = []
         if "gate" in self.modes:
             L += self.gen_gate(rng)
+        if "cut" in self.modes:
+            L += self.gen_cut(rng)
         if "srv" in self.modes:
             L += self.gen_srv(rng, sz["srv"])
         if "peer" in self.modes:
